@@ -1587,7 +1587,14 @@ class Engine:
             if len(cands) > 1:
                 # several impls for one outer type (`Vec<A>` / `Vec<B>`): match the full self type text
                 want = _norm_ty(re.sub(r"^&(?:'\w+ )?(?:mut )?", "", self_t.strip()))
-                cc = [f for f in cands if _norm_ty(s.impl_self_text(f)) == want]
+                def _same(t):
+                    t = _norm_ty(re.sub(r"^&(?:'\w+ )?(?:mut )?", "", t.strip()))
+                    if t == want:
+                        return True
+                    # `[T; N]` (const generic) against `[T; 28]`
+                    a = re.fullmatch(r"\[(.*);\s*[A-Z]\w*\]", t); b = re.fullmatch(r"\[(.*);\s*\d+\w*\]", want)
+                    return bool(a and b and a.group(1).strip() == b.group(1).strip())
+                cc = [f for f in cands if _same(s.impl_self_text(f))]
                 if len(cc) == 1:
                     cands = cc
             if len(cands) == 1:
